@@ -7,7 +7,7 @@ git diff -- xknx > /tmp/$ID.diff
 [ -s /tmp/$ID.diff ] || { echo "no diff"; exit 2; }
 /venv/bin/python demo_$P.py > /tmp/$ID.demo_with.txt 2>&1; W=$?
 /venv/bin/python -m pytest -q -p no:cacheprovider --timeout=900 2>&1 | tail -4 > /tmp/$ID.suite.txt
-git stash -q; /venv/bin/python demo_$P.py > /tmp/$ID.demo_without.txt 2>&1; WO=$?; git stash pop -q
+git apply -R /tmp/$ID.diff; /venv/bin/python demo_$P.py > /tmp/$ID.demo_without.txt 2>&1; WO=$?; git apply /tmp/$ID.diff
 echo "demo with=$W without=$WO; suite: $(grep -E 'passed|failed' /tmp/$ID.suite.txt | tail -1)"
 grep FAILED /tmp/$ID.suite.txt | grep -v "test_start_automatic_connection\|test_lifecycle"
 mkdir -p /verif/seeded/$ID
